@@ -12,17 +12,17 @@ Definition FILTER_BUF_SIZE : Z := 4096.
    the script the reader is at its end and returns Ok(0).  A read into an empty destination
    returns Ok(0) and consumes nothing.  (harness: util::ChunkReader / a_bcj::ScriptReader) *)
 Inductive inner_event := IData (p : list Z) | IErr (code : Z).
-Inductive inner_ret := RData (data : list Z) | RErr (code : Z).
+Inductive inner_ret := BjData (data : list Z) | BjErr (code : Z).
 
 Definition inner_read (evs : list inner_event) (n : Z) : inner_ret * list inner_event :=
-  if n <=? 0 then (RData [], evs)
+  if n <=? 0 then (BjData [], evs)
   else
     match evs with
-    | [] => (RData [], [])
-    | IErr c :: rest => (RErr c, rest)
+    | [] => (BjData [], [])
+    | IErr c :: rest => (BjErr c, rest)
     | IData p :: rest =>
-        if zlen p <=? n then (RData p, rest)
-        else (RData (firstn (Z.to_nat n) p), IData (skipn (Z.to_nat n) p) :: rest)
+        if zlen p <=? n then (BjData p, rest)
+        else (BjData (firstn (Z.to_nat n) p), IData (skipn (Z.to_nat n) p) :: rest)
     end.
 
 (* chunks -> script; empty chunks are dropped (a reader cannot return Ok(0) before its end) *)
@@ -94,13 +94,13 @@ Fixpoint bcj_read_loop (fuel : nat) (a : arch) (st : rstate) (inner : list inner
         else
           let in_size := FILTER_BUF_SIZE - start in
           match inner_read inner in_size with
-          | (RErr c, inner') =>
+          | (BjErr c, inner') =>
               (* self.state = state; a transient error is not remembered; bytes already copied are
                  handed out first *)
               let err := if c =? E_INTERRUPTED then r_err st else Some c in
               let st' := mkR (r_filter st) pos filtered unfiltered live (r_end st) err in
               if 0 <? size then Ok (out, None, st', inner') else Ok (out, Some c, st', inner')
-          | (RData data, inner') =>
+          | (BjData data, inner') =>
               let in_size := zlen data in
               if in_size =? 0 then
                 (* end of the inner stream: the unfiltered tail becomes ready to be copied out *)
